@@ -99,4 +99,9 @@ def is_pointer(t):
 
 
 def short(loc):
-    return loc.replace(frontend.INC + "/", "") if loc else loc
+    if not loc:
+        return loc
+    m = re.match(r"(.*?)(:\d+(?::\d+)?)?$", loc)
+    path, tail = m.group(1), m.group(2) or ""
+    path = os.path.normpath(path) if path.startswith("/") else path
+    return path.replace(frontend.INC + "/", "") + tail
